@@ -138,6 +138,10 @@ def check(ix, rep):
     nw1, _ = windowrule.check_offline(ix, rep, by['discrete-offline'], which=('R-INDEX',))
     nw2, _ = windowrule.check_online(ix, rep, by['discrete-online'], which=('R-INDEX',))
     rep.floor('bounded discrete-time operators whose index obligations were derived', nw1 + nw2, 10)
+    # an inherited caller meets the overriding callee: self-calls are matched against every class they can run in
+    from sa.rules import selfarity
+    na = selfarity.check(ix, rep)
+    rep.floor('self-calls matched against the callee of every receiving class', na, 2000)
     explanation = (
         'Static exhaustiveness/effect analysis. For each of the 20 concrete interpreter classes (synthesised from the '
         'factory call sites) the isinstance dispatch chain is resolved along the MRO and every one of the 39 node '
